@@ -28,6 +28,10 @@ open Remoc.Robs
 
 namespace RobsDriver
 
+/-- The variant of the mirror task that the current tree is expected to match: `.fixed` since the
+repair of finding F13 in /repo (be944ac); the behaviour of `.pinned` is then a regression. -/
+def codeVariant : Remoc.Robs.Variant := .fixed
+
 /-- text interface of one collection model -/
 structure Codec (S : Sys) where
   name : String
@@ -388,7 +392,7 @@ def feedLine (cd : Codec S) (st : CaseSt S) (line : String) : CaseSt S :=
       | none => (st.obs, k)
       | some s0 =>
         let sub0 : Sub S := ⟨if s0.incr then .incremental else .snapshot, s0.obsAt.v, cd.incrEvents s0.obsAt.v, s0.obsAt.done⟩
-        let t0 := S.taskRun .pinned (sub0.mirrorInit s0.max) (sub0.stream (st.groups.toList.drop s0.k).flatten)
+        let t0 := S.taskRun codeVariant (sub0.mirrorInit s0.max) (sub0.stream (st.groups.toList.drop s0.k).flatten)
         (⟨t0.m.v, t0.m.done⟩, s0.rootK)
     { st with subs := st.subs ++ [{ sid, k, incr := mode == "incr", mirror := kind == "mirror",
                                     obsAt, buf := getOpt "buf" 1000000, max := getOpt "max" 1000000, src, rootK,
@@ -439,7 +443,8 @@ def splitBy {α : Type} : List Nat → List α → List (List α)
 /-- the hypotheses of the mirror theorem that this subscription violates -/
 def causes (_cd : Codec S) (st : CaseSt S) (s : SubInfo S) (mirrorTask : Bool) : List String :=
   (if st.badCalls.any (fun i => s.rootK ≤ i) then ["retain-mutation"] else []) ++
-  (if mirrorTask && s.incr && s.obsAt.done && S.inheritDone then ["incremental-after-done"] else [])
+  (if mirrorTask && s.incr && s.obsAt.done && S.inheritDone && (match codeVariant with | .pinned => true | _ => false)
+    then ["incremental-after-done"] else [])
 
 /-- finding F14: a remote subscriber of a mirror that is still receiving its incremental initial value is
 closed when the mirror forwards the unserializable `InitialComplete` -/
@@ -473,13 +478,14 @@ def checkSub (cd : Codec S) (st : CaseSt S) (s : SubInfo S) : CaseSt S :=
           es :: (List.range es.length).map (fun i => (es.drop i).take 1 ++ es.take i ++ es.drop (i + 1))
         else [cd.incrEvents s.obsAt.v]
       let streams := firsts.map (fun es => (Sub.stream { sub with initEvents := es } later))
-      let tps := streams.map (fun str => S.taskRun .pinned (sub.mirrorInit s.max) str)
-      let tp := (tps.find? (fun t => showT t == real)).getD (S.taskRun .pinned (sub.mirrorInit s.max) stream)
-      let tfs := streams.map (fun str => S.taskRun .fixed (sub.mirrorInit s.max) str)
-      let tf := (tfs.find? (fun t => showT t == real)).getD (S.taskRun .fixed (sub.mirrorInit s.max) stream)
+      let tps := streams.map (fun str => S.taskRun codeVariant (sub.mirrorInit s.max) str)
+      let tp := (tps.find? (fun t => showT t == real)).getD (S.taskRun codeVariant (sub.mirrorInit s.max) stream)
+      -- the task as coded before the repair of F13 (stops after the first initial element)
+      let tos := streams.map (fun str => S.taskRun .pinned (sub.mirrorInit s.max) str)
+      let told := (tos.find? (fun t => showT t == real)).getD (S.taskRun .pinned (sub.mirrorInit s.max) stream)
       let agrees := showT tp == real || s.race
       let st := if agrees then st
-        else if showT tf == real then { st with out := st.out.push s!"VARIANT {st.id} sub {s.sid}: mirror behaves like the repaired task (F13 fixed)" }
+        else if showT told == real then st.diff s!"sub {s.sid} (k={s.k} {if s.incr then "incr" else "snap"}): mirror behaves like the task before the repair of F13: real [{real}] model [{showT tp}]"
         else st.diff s!"sub {s.sid} (k={s.k} {if s.incr then "incr" else "snap"}): mirror real [{real}] model [{showT tp}]"
       -- property predicate on the real data
       let cs := if f14 s err then "remote-sub-of-incomplete-mirror" else causeText (causes cd st s true) agrees
@@ -711,7 +717,7 @@ def checkMirror14 (cd : Codec S) (st : St14 S) (s : Sub14 S) : St14 S :=
             -- finding F9: the code as modelled accepts this prefix without error although the limit is exceeded
             let t0 : Remoc.Robs.Task S.C :=
               { m := { v := s.c0, complete := true, done := false, error := none, maxSize := s.max }, running := true }
-            let modelAccepts := (S.taskRun .pinned t0 ((later.take j).map Recv.ev)).m.error.isNone
+            let modelAccepts := (S.taskRun codeVariant t0 ((later.take j).map Recv.ev)).m.error.isNone
             let st := if (sizes.getD j 0) ≤ s.max then st
               else st.fail cd.name s!"mirror-exceeds-max-size sub={s.sid} size={sizes.getD j 0} max={s.max}"
                 (if !modelAccepts then "unexplained"
